@@ -145,10 +145,16 @@ def main():
             detail.append(b.stdout[-300:])
         else:
             for pid in ("C18", "C19"):
-                r = sh([os.path.join(VERIF, "check"), pid, "--tier", "quick", "--seed", os.environ.get("MUT_SEED", "1")],
-                       cwd=VERIF, env=dict(os.environ, VERIF_REPO=wt))
+                cmd = [os.path.join(VERIF, "check"), pid, "--tier", "quick", "--seed", os.environ.get("MUT_SEED", "1")]
+                if os.environ.get("MUT_ONLY"):
+                    if not os.environ["MUT_ONLY"].startswith("Test" + pid):
+                        continue
+                    cmd += ["--only", os.environ["MUT_ONLY"]]
+                r = sh(cmd, cwd=VERIF, env=dict(os.environ, VERIF_REPO=wt))
                 if r.returncode == 1:
-                    caught.append(pid)
+                    import re
+                    units = sorted(set(re.findall(r"--- FAIL: (Test\w+)", r.stdout)))
+                    caught.append(pid + ("(" + ",".join(units) + ")" if units else ""))
                     msg = [l for l in r.stdout.splitlines() if "evid.go" in l and ("step" in l or "advert" in l or "tie-break" in l)]
                     detail.append("%s: %s" % (pid, (msg[-1].strip()[:260] if msg else "?")))
                 elif r.returncode != 0:
